@@ -302,6 +302,17 @@ def statement_programs(tier, rnd):
             if n <= 8:
                 out.append(spec_single("partsel", "%s%d[%d:%d] < b" % (ty[0], ty[1], hi, lo), fields,
                                        [E(["<", ["ps", a, hi, lo], b])]))
+        # a part-select is an unsigned quantity whatever the field: relations with signed operands (plain ints, signed fields)
+        for hi, lo in sels[2:5]:
+            n = hi - lo + 1
+            if n > 16:
+                continue
+            fields = [fld("a", ty), fld("b", ("u", 8)), fld("d", ("s", 8)), fld("e", ("s", 16))]
+            for op in ("<", ">=", "==", ">"):
+                for rhs in (lit((1 << n) // 4), lit(0), F("d"), F("e"), ["slit", 3, 8]):
+                    st = [E([op, ["ps", a, hi, lo], rhs])]
+                    if _stmts_in_F(st, fields):
+                        out.append(spec_single("partsel", "%s%d[%d:%d] %s %s" % (ty[0], ty[1], hi, lo, op, rhs), fields, st))
         for i in (0, w // 2, w - 1):
             out.append(spec_single("partsel", "%s%d[%d] == 1 & bit relation" % (ty[0], ty[1], i),
                                    [fld("a", ty), fld("b", ty)],
@@ -328,6 +339,15 @@ def statement_programs(tier, rnd):
     for c1, c2, c3 in itertools.permutations(cond_pool[:4], 3):
         out.append(spec_single("ifelse", "if/elif/elif/else", fields,
                                [["if", [[c1, body_pool[0]], [c2, body_pool[1]], [c3, body_pool[2]]], [E(["==", b, lit(77)])]]], nonr))
+    # long else-if chains (4..6 branches): selector in a non-random field / a random field / mixed conditions
+    for nbr in (4, 5, 6):
+        for sel, nr in ((c, [{"c": v} for v in range(nbr + 1)]), (F("d"), [{"c": 0}])):
+            chain = [[["==", sel, lit(i)], [E(["==", b, lit(10 * (i + 1))])]] for i in range(nbr)]
+            for els in (None, [E(["==", b, lit(99)])]):
+                out.append(spec_single("ifelse", "%d-branch else-if chain on %s else %s" % (nbr, sel, els), fields, [["if", chain, els]], nr))
+        chain = [[cond_pool[i % 4] if i % 2 else ["==", c, lit(i)], [E(["==", b, lit(10 * (i + 1))])]] for i in range(nbr)]
+        out.append(spec_single("ifelse", "%d-branch else-if chain, mixed conditions" % nbr, fields, [["if", chain, [E(["<", b, lit(5)])]]],
+                               [{"c": v} for v in (0, 2, 4, 9)]))
     for c1 in cond_pool:
         for b1 in body_pool[:3]:
             out.append(spec_single("implies", "implies %s -> %s" % (c1, b1), fields, [["implies", c1, b1]], nonr))
